@@ -13,7 +13,7 @@ from hypothesis import strategies as st
 from vv.core import Result, exc_violation, innermost_is_harness
 
 ID = 'C18'
-CASES = {'quick': 500, 'thorough': 10000}
+CASES = {'quick': 1000, 'thorough': 60000}
 RULE = ('Hypothesis draws a fixed-shape tree (depth <=4, keys a,b,c,x), 1..6 '
         'increasing times, a value for every (leaf,time) cell from ints incl 0, '
         'floats, bools, "", strings, [], lists and quantities (one unit per '
